@@ -119,8 +119,8 @@ func driveC15(args []string) error {
 		d := func(k, q int) float32 { return float32(k) / float32(int(1)<<uint(q)) }
 		switch rng.Intn(5) {
 		case 0: // integers of the offset fall on pixel centres: c = -(a+b)/2 + k/4
-			a, b := d(1, 4), d(0, 1)
-			return [6]float32{a, b, -(a+b)/2 + d(rng.Intn(9)-4, 2), d(0, 1), d(1, 4), -d(1, 5)}
+			a, b := d(1, 4), d(rng.Intn(3)-1, 5)
+			return [6]float32{a, b, -(a+b)/2 + d(rng.Intn(9)-4, 2), d(rng.Intn(3)-1, 6), d(1, 4), -d(1, 5)}
 		case 1:
 			a, b := d(rng.Intn(9)-4, 5), d(rng.Intn(9)-4, 5)
 			return [6]float32{a, b, -(a+b)/2 + d(rng.Intn(17)-8, 3), d(rng.Intn(9)-4, 5), d(rng.Intn(9)-4, 5), d(rng.Intn(17)-8, 4)}
@@ -186,6 +186,13 @@ func driveC15(args []string) error {
 		}
 		// (B) through the registers of a real Renderer; the image handed to Draw is probed
 		cfgs := latticeCfgs()
+		// more power-of-two scales that differ in x and y (the composed matrix is compared exactly for those)
+		cfgs = append(cfgs,
+			rendCfg{[4]float32{-32, -32, 32, 32}, image.Rect(0, 0, 128, 32)},
+			rendCfg{[4]float32{0, 0, 16, 64}, image.Rect(2, 1, 66, 65)},
+			rendCfg{[4]float32{-8, -8, 8, 8}, image.Rect(0, 0, 64, 16)},
+			rendCfg{[4]float32{-32, -32, 32, 32}, image.Rect(0, 0, 32, 16)},
+			rendCfg{[4]float32{-16, -32, 16, 32}, image.Rect(5, 5, 5+128, 5+64)})
 		cfg := cfgs[rng.Intn(len(cfgs))]
 		rr := &RecRaster{}
 		var z render.Renderer
